@@ -9,7 +9,8 @@ from harness.common import rat, rat_list, parse_rat_lists, MachineryError
 from harness.props import gridlib as G
 
 MAXLIVE = 7
-NONMUT = ('new', 'copy', 'scaled', 'shifted', 'reversed', 'rotated', 'protated')
+NONMUT = ('new', 'copy', 'scaled', 'shifted', 'reversed', 'rotated', 'protated', 'as', 'pshifted')
+FROM_IMPL = ('as', 'pshifted', 'pshift')     # results the rational model takes from the implementation (oracle-checked)
 TWO_PI = 2 * np.pi
 
 
@@ -19,17 +20,17 @@ TWO_PI = 2 * np.pi
 def gen_scale_arg(rng, ndim, polar):
     vals = [-2.0, -1.0, -0.5, 0.5, 2.0, 1.5, 4.0, 1.0, -0.25, 3.0, -1.5]
     if polar:
-        return ['s', float(rng.choice([2.0, 0.5, 1.5, 4.0, 1.0, 3.0]))]
+        return ['s', float(rng.choice([2.0, 0.5, 1.5, 4.0, 1.0, 3.0])), str(rng.choice(G.SCALAR_FORMS))]
     if rng.random() < 0.45:
-        return ['s', float(rng.choice(vals))]
-    return ['v', [float(rng.choice(vals)) for _ in range(ndim)]]
+        return ['s', float(rng.choice(vals)), str(rng.choice(G.SCALAR_FORMS))]
+    return ['v', [float(rng.choice(vals)) for _ in range(ndim)], str(rng.choice(G.VECTOR_FORMS))]
 
 
 def gen_shift_arg(rng, ndim):
     vals = [0.0, 0.5, -1.0, 2.0, 0.125, -3.25, 1.0]
     if rng.random() < 0.3:
-        return ['s', float(rng.choice(vals))]
-    return ['v', [float(rng.choice(vals)) for _ in range(ndim)]]
+        return ['s', float(rng.choice(vals)), str(rng.choice(G.SCALAR_FORMS))]
+    return ['v', [float(rng.choice(vals)) for _ in range(ndim)], str(rng.choice(G.VECTOR_FORMS))]
 
 
 def gen_rot(rng, ndim):
@@ -67,26 +68,36 @@ def gen_history(rng, big):
         spec['shared'] = True
         if isinstance(spec['w'], list) and spec['kind'] != 'reg' and len(spec['data'][0]) == len(spec['w']) and rng.random() < 0.5:
             spec['w'] = list(spec['data'][0])
+    if not shared and rng.random() < 0.5:
+        G.gen_forms(rng, spec)               # dtype / container of every constructor argument
+    f32 = bool(spec.get('f32'))
     ops = [['new', spec]]
-    meta = [(spec['sys'], spec_ndim(spec))]
+    meta = [(spec['sys'], spec_ndim(spec), f32)]
     if shared and rng.random() < 0.4:
         ops.append(['new', dict(spec)])      # a second grid built from the very same arrays
         meta.append(meta[0])
     nops = int(rng.integers(2, 7 if not big else 10))
+    convy = rng.random() < 0.35              # a history that keeps converting between coordinate systems
     for _ in range(nops):
         i = int(rng.integers(0, len(meta)))
-        sysm, ndim = meta[i]
+        sysm, ndim, f32 = meta[i]
         if sysm == 'p':
-            choices = ['copy', 'mat', 'scale', 'scaled', 'reverse', 'reversed', 'protate', 'protated', 'protate']
+            choices = ['copy', 'mat', 'scale', 'scaled', 'reverse', 'reversed']
+            if not f32:
+                # (float32 coordinates: transcendental results would be rounded to float32; left to float64 grids)
+                choices += ['protate', 'protated', 'protate', 'as', 'pshifted', 'pshift'] + (['as', 'as', 'pshifted', 'reverse'] if convy else [])
         else:
             choices = ['copy', 'mat', 'mat', 'scale', 'scaled', 'shift', 'shifted', 'reverse', 'reversed', 'scale', 'reverse']
             if ndim >= 2:
                 choices += ['rotate', 'rotated']
             elif rng.random() < 0.1:
                 choices += ['rotate']          # 1-D: must be refused with ValueError
+            if ndim == 2 and not f32:
+                choices += ['as'] + (['as', 'as', 'as', 'reverse', 'reversed'] if convy else [])
         op = str(rng.choice(choices))
         if len(meta) >= MAXLIVE and op in NONMUT:
-            op = {'scaled': 'scale', 'shifted': 'shift', 'reversed': 'reverse', 'rotated': 'rotate', 'protated': 'protate', 'copy': 'mat'}[op]
+            op = {'scaled': 'scale', 'shifted': 'shift', 'reversed': 'reverse', 'rotated': 'rotate', 'protated': 'protate', 'copy': 'mat',
+                  'as': 'reverse', 'pshifted': 'pshift'}[op]
         if op in ('scale', 'scaled'):
             ops.append([op, i, gen_scale_arg(rng, ndim, sysm == 'p')])
         elif op in ('shift', 'shifted'):
@@ -96,10 +107,20 @@ def gen_history(rng, big):
         elif op in ('protate', 'protated'):
             c, s = G.gen_angle(rng)
             ops.append([op, i, {'c': G.fr(c), 's': G.fr(s)}])
+        elif op in ('pshifted', 'pshift'):
+            ops.append([op, i, ['v', [float(rng.choice([0.0, 0.5, -1.0, 2.0, 0.125])) for _ in range(2)], str(rng.choice(G.VECTOR_FORMS))]])
         else:
             ops.append([op, i])
-        if op in NONMUT:
-            meta.append((sysm if op != 'rotated' else 'c', ndim))
+        if op == 'as':
+            meta.append(('p' if sysm == 'c' else 'c', 2, False))
+        elif op == 'pshifted':
+            meta.append(('c', 2, False))
+        elif op == 'rotated':
+            meta.append(('c', ndim, False))
+        elif op in NONMUT:
+            meta.append((sysm, ndim, f32))
+        elif op == 'rotate':
+            meta[i] = ('c', ndim, False)
     return {'family': 'history', 'ops': ops}
 
 
@@ -116,19 +137,28 @@ def apply_real(grids, op, pool=None):
         with warnings.catch_warnings():
             warnings.simplefilter('ignore')
             if kind == 'new':
-                grids.append(G.build(op[1], pool))
+                g = G.build(op[1], pool)
+                G.validate(g)
+                grids.append(g)
+            elif kind == 'as':
+                src = grids[op[1]]
+                grids.append(src.as_('polar' if src._coordinate_system == 'cartesian' else 'cartesian'))
+            elif kind == 'pshifted':
+                grids.append(grids[op[1]].shifted(G.op_arg(op[2])))
+            elif kind == 'pshift':
+                grids[op[1]].shift(G.op_arg(op[2]))
             elif kind == 'copy':
                 grids.append(grids[op[1]].copy())
             elif kind == 'mat':
                 grids[op[1]].weights
             elif kind in ('scale', 'scaled'):
-                a = op[2][1] if op[2][0] == 's' else np.array(op[2][1])
+                a = G.op_arg(op[2])
                 if kind == 'scaled':
                     grids.append(grids[op[1]].scaled(a))
                 else:
                     grids[op[1]].scale(a)
             elif kind in ('shift', 'shifted'):
-                b = op[2][1] if op[2][0] == 's' else np.array(op[2][1])
+                b = G.op_arg(op[2])
                 if kind == 'shifted':
                     grids.append(grids[op[1]].shifted(b))
                 else:
@@ -203,7 +233,22 @@ def model_history_lines(case):
                 lines.append('C11 %s %d r2 %s %s' % (kind, op[1], r['c'], r['s']))
         elif kind in ('protate', 'protated'):
             lines.append('C11 %s %d %s' % (kind, op[1], rat(angle_of(op[2]))))
+        elif kind in FROM_IMPL:
+            lines.append('IMPL')
     return lines
+
+
+def impl_line(st):
+    """The model request that enters the implementation's result of a coordinate-system conversion
+    (or of a polar shift, which goes through one) into the store."""
+    op = st['op']
+    if st['status'] != 'ok':
+        return '# %s failed in the implementation' % op[0]
+    if op[0] == 'pshift':
+        a = st['after'][op[1]]
+        return 'C11 set %d %s %s %s' % (op[1], a['sys'], G.coords_text(a['kind'], a['data']), G.w_text(a['w']))
+    a = st['after'][-1]
+    return 'C11 new %s %s %s' % (a['sys'], G.coords_text(a['kind'], a['data']), G.w_text(a['w']))
 
 
 # ---------------------------------------------------------------------------------------------
@@ -250,9 +295,12 @@ def oracle_history(steps):
                 allowed = True          # documented: a one-dimensional grid cannot be rotated
             if name in ('scale', 'scaled', 'mat') and src['sys'] == 'c' and src['kind'] == 'sep' and src['w'] is None and src['getw'][0] == 'err':
                 allowed = True          # automatic weights undefined (axis with fewer than two points)
-            if not allowed:
+            if not allowed and src is None:
+                bad.append(('new-raises', 'constructing (or reading the points of) a %s %s grid with argument forms %r raised %s' % (
+                    op[1]['sys'], op[1]['kind'], op[1].get('forms'), status[4:])))
+            elif not allowed:
                 bad.append(('op-raises %s%s' % (base(name), arg_class(op)),
-                            '%s%s raised %s on a %s %s grid' % (name, arg_class(op), status[4:], src['sys'], src['kind'])))
+                            '%s%s raised %s on a %s %s grid' % (name, arg_form(op), status[4:], src['sys'], src['kind'])))
             if len(after) != len(before) or any(not same_snap(a, b) for a, b in zip(after, before)):
                 bad.append(('failed-op-side-effect', 'a failed %s changed a live grid' % name))
             continue
@@ -293,6 +341,24 @@ def oracle_history(steps):
         elif name in ('protate', 'protated'):
             wantP = P + np.array([0.0, angle_of(op[2])])[None, :]
             wantW = W
+        elif name == 'as':
+            # a conversion is a pure function of the *current* points, whatever was converted before
+            if src['sys'] == 'c':
+                wantP = np.stack([np.hypot(P[:, 0], P[:, 1]), np.arctan2(P[:, 1], P[:, 0])], axis=1) if len(P) else P
+            else:
+                wantP = polar_to_cart(P) if len(P) else P
+            wantW = None
+            if new['sys'] == src['sys']:
+                bad.append(('conversion system', 'as_() returned a grid in the old coordinate system'))
+        elif name in ('pshifted', 'pshift'):
+            C = polar_to_cart(P) if len(P) else P
+            wantP = C + factors(op[2], 2)[None, :] if len(P) else P
+            wantW = W if name == 'pshift' else None
+            got = new['points'] if new['sys'] == 'c' else (polar_to_cart(new['points']) if len(P) else P)
+            if (name == 'pshifted') != (new['sys'] == 'c'):
+                bad.append(('conversion system', 'PolarGrid.%s returned a %s grid' % (name, new['sys'])))
+            new = dict(new)
+            new['points'] = got
         else:
             raise MachineryError(name)
         if not close_arr(new['points'], wantP):
@@ -321,7 +387,14 @@ def aliased(spec):
 
 
 def base(name):
-    return {'scaled': 'scale', 'shifted': 'shift', 'reversed': 'reverse', 'rotated': 'rotate', 'protated': 'protate'}.get(name, name)
+    return {'scaled': 'scale', 'shifted': 'shift', 'reversed': 'reverse', 'rotated': 'rotate', 'protated': 'protate',
+            'pshifted': 'pshift'}.get(name, name)
+
+
+def arg_form(op):
+    if len(op) > 2 and isinstance(op[2], list):
+        return '(%s as %s)' % ('scalar' if op[2][0] == 's' else 'vector', op[2][2] if len(op[2]) > 2 else 'default')
+    return ''
 
 
 def arg_class(op):
@@ -528,6 +601,11 @@ def check_ctor(case):
             sh = g.shifted(b)
             if sh._coordinate_system != 'cartesian' or not close_arr(G.points(sh), C + b[None, :], max(1.0, float(np.max(np.abs(C))) if C.size else 1.0)):
                 bad.append(('points shift polar', 'PolarGrid.shifted does not move the physical points by the shift'))
+            sh2 = g.shifted(b)
+            if sh2 is sh or not close_arr(G.points(sh2), C + b[None, :], max(1.0, float(np.max(np.abs(C))) if C.size else 1.0)):
+                bad.append(('points shift polar', 'a second PolarGrid.shifted() with the same shift gives a different result (or the same object)'))
+            if not close_arr(G.points(sh), C + b[None, :], max(1.0, float(np.max(np.abs(C))) if C.size else 1.0)):
+                bad.append(('alias pshift', 'the result of an earlier PolarGrid.shifted() changed'))
             h = g.copy()
             h.shift(b)
             if h._coordinate_system != 'polar' or not close_arr(polar_to_cart(G.points(h)), C + b[None, :], max(1.0, float(np.max(np.abs(C))) if C.size else 1.0)):
@@ -563,7 +641,25 @@ def SH(sysm, kind, data, w=None):
 
 R345 = {'c': '3/5', 's': '4/5'}
 AX = [0.0, 1.0, 3.0]
+V10 = ['v', [1.0, 0.0], 'float64']
 DIRECTED = [
+    # conversion histories: as_() interleaved with in-place and copying ops; every conversion must reflect the current value
+    {'family': 'history', 'ops': [['new', S('c', 'reg', [[0.5, 0.5], [3, 2], [0.5, -0.25]])], ['as', 0], ['reverse', 0], ['as', 0], ['reversed', 0], ['as', 3],
+                                  ['shift', 0, V10], ['as', 0], ['scale', 1, ['s', 2.0, 'pyfloat']], ['as', 0]]},
+    {'family': 'history', 'ops': [['new', S('p', 'sep', [[1.0, 2.0], [0.0, 1.0, 2.0]])], ['pshifted', 0, V10], ['pshifted', 0, V10], ['as', 0], ['reverse', 0], ['as', 0],
+                                  ['pshift', 0, V10], ['as', 0], ['reversed', 0], ['as', 6]]},
+    {'family': 'history', 'ops': [['new', S('c', 'uns', [[1.0, 0.0, -2.0], [0.0, 3.0, 1.0]], [1.0, 2.0, 3.0])], ['as', 0], ['as', 1], ['reverse', 1], ['as', 1], ['copy', 1], ['as', 4],
+                                  ['scale', 0, ['s', 2.0, '0d']], ['as', 0]]},
+    # dtype / container of every argument
+    {'family': 'history', 'ops': [['new', dict(S('c', 'reg', [[0.5, 0.5], [3, 2], [1.0, 1.0]]), forms={'dims': 'uint8', 'coord': '0d', 'outer': 'list'})],
+                                  ['scaled', 0, ['s', 2.0, '0d']], ['scaled', 0, ['s', 2.0, 'len1']], ['scale', 0, ['s', 2.0, 'list1']], ['shift', 0, ['s', 1.0, '0d']],
+                                  ['shifted', 0, ['v', [1.0, 2.0], 'tuple']], ['scaled', 0, ['v', [2.0, -3.0], 'list']]]},
+    {'family': 'history', 'ops': [['new', dict(S('c', 'sep', [[0.0, 1.0, 3.0], [0.0, 2.0]]), forms={'coord': 'list', 'outer': 'tuple'})], ['mat', 0],
+                                  ['scaled', 0, ['s', 2.0, '0d']], ['scale', 0, ['s', 2.0, 'len1']], ['shift', 0, ['s', 1.0, 'len1']], ['reversed', 0], ['scaled', 0, ['v', [2.0, 3.0], 'tuple']]]},
+    {'family': 'history', 'ops': [['new', dict(S('c', 'uns', [[0.0, 1.0, 3.0], [0.0, 2.0, 5.0]], [1.0, 2.0, 3.0]), forms={'coord': 'float32', 'outer': 'list', 'w': 'float32'})],
+                                  ['scaled', 0, ['s', 2.0, '0dint']], ['scale', 0, ['s', 0.5, 'npfloat32']], ['shift', 0, ['v', [1.0, 0.5], 'float32']], ['reverse', 0]]},
+    {'family': 'history', 'ops': [['new', dict(S('p', 'sep', [[1.0, 2.0], [0.0, 1.0, 2.0]]), forms={'coord': 'tuple', 'outer': 'list'})],
+                                  ['scaled', 0, ['s', 2.0, 'len1']], ['scale', 0, ['s', 2.0, '0d']], ['scale', 0, ['s', 2.0, 'pyint']]]},
     # aliased constructor inputs: one array for both axes / for delta and zero / for weights and a column / for two grids
     {'family': 'history', 'ops': [['new', SH('c', 'sep', [AX, AX])], ['scaled', 0, ['s', 2.0]], ['copy', 0], ['scale', 2, ['v', [2.0, 0.5]]], ['shift', 0, ['v', [1.0, 0.0]]],
                                   ['scale', 0, ['s', -2.0]], ['reverse', 0], ['rotated', 0, R345]]},
@@ -612,12 +708,16 @@ def run(ctx):
     ctx.rule = ('(a) transformation histories over a store of live grids: a base grid (Cartesian 1-3 D or polar; regular / separated '
                 'incl. ragged, descending, unsorted / unstructured; stored weights none, scalar or per point; in 40 % of the histories '
                 'built from caller-owned arrays in which equal arrays are ONE object — same array for several axes, for delta and '
-                'zero, for weights and a column — and often a second grid from the very same arrays), then 2-9 of copy, '
+                'zero, for weights and a column — and often a second grid from the very same arrays; in half of the others every '
+                'constructor argument in a random dtype / container, see C10), then 2-9 of copy, '
                 'materialise-weights, scale(d) by scalars or per-axis vectors of either sign, shift(ed) by scalar or vector, '
-                'reverse(d), rotate(d) by Pythagorean angles (2-D; 3-D about rational unit axes), polar rotate; after EVERY op all '
+                'reverse(d), rotate(d) by Pythagorean angles (2-D; 3-D about rational unit axes), polar rotate, as_(other system) of any '
+                'live 2-D grid (the result becomes a live grid itself: later ops on it, later conversions of its source), polar '
+                'shift/shifted; scalar arguments as Python/NumPy scalars, 0-d, one-element arrays; after EVERY op all '
                 'live grids are re-read (representation, stored weights, weights getter on a deep copy, points). Oracle: new points '
                 'are the affine images of the old points; weights scale by |J|, are kept by shift, travel with the points on reverse '
-                '— whether or not they had been cached; other grids and the caller\'s arrays untouched. (b) constructors: make_uniform_grid, make_focal_grid, '
+                '— whether or not they had been cached; every conversion equals the pointwise conversion of the CURRENT points; '
+                'other grids (earlier conversion results included) and the caller\'s arrays untouched. (b) constructors: make_uniform_grid, make_focal_grid, '
                 'make_focal_grid_from_pupil_grid (origin present; weights sum), supersample/subsample round trip and cell centring, '
                 'Cartesian->polar->Cartesian, polar shift. Model: `show`/`points` compared after every op. Non-trivial = at least '
                 'one transformation applied or a constructor clause evaluated; distinct by (family, op sequence with argument '
@@ -656,11 +756,13 @@ def run(ctx):
                     nd = st['before'][op[1]]['points'].shape[1]
                     b = [op[2][1]] * nd if op[2][0] == 's' else op[2][1]
                     ml = 'C11 %s %d %s' % (op[0], op[1], rat_list(b))
+                if ml == 'IMPL':
+                    ml = impl_line(st)
                 if isinstance(ml, list):
                     lines += ml
                 else:
                     lines.append(ml)
-                m = {'op': len(lines) - 1}
+                m = {'op': len(lines) - 1, 'impl': op[0] in FROM_IMPL}
                 nlive = len(st['after'])
                 m['show'] = len(lines)
                 lines += ['C11 show %d' % k for k in range(nlive)]
@@ -696,6 +798,8 @@ def run(ctx):
                 ans = out[base_i + m['op']]
                 mstatus = 'ok' if ans.startswith('ok') else 'err:' + ans.split(' ')[1]
                 ctx.traces_validated += 1
+                if m.get('impl') and st['status'] != 'ok':
+                    break
                 if mstatus != st['status']:
                     ctx.disagree('C11 op status', {'case': case, 'op': st['op'], 'impl': st['status'], 'model': ans})
                     break
